@@ -143,7 +143,10 @@ def crystal_descs(draw, sgs=None, max_orbits=3, force_letters=None, anchor=None,
         k0 = 3 * len(orbits) + 24 * salt
         orbits.append({"letter": l, "q": [gc.generic(draw, k0 + j, 0.05, 0.95) for j in range(3)], "Z": z})
     raw = [gc.generic(draw, 17 + j + 24 * salt, 3.5, 9.0) for j in range(3)] + [gc.generic(draw, 20 + j + 24 * salt, 75.0, 105.0) for j in range(3)]
-    return {"sg": sg, "orbits": orbits, "raw": raw}
+    d = {"sg": sg, "orbits": orbits, "raw": raw}
+    if spgref.centring(sg) != "P" and draw(st.integers(0, 2)) == 0:
+        d["prim"] = True      # describe the crystal in a primitive cell of its centred lattice (supercells of it are then
+    return d                  # smaller than the conventional cell)
 
 
 @functools.lru_cache(maxsize=None)
@@ -236,7 +239,7 @@ def build_standard(desc, primitive="auto", retry=0):
     frac = np.vstack(pts) % 1.0
     nums = np.array(nums, int)
     c = spgref.centring(sg)
-    if c != "P" and (primitive is True or (primitive == "auto" and len(nums) > 60)):
+    if c != "P" and (primitive is True or desc.get("prim") or (primitive == "auto" and len(nums) > 60)):
         P = PRIM[c]
         pc = P @ cell                      # rows: primitive vectors
         f2 = (frac @ cell) @ np.linalg.inv(pc)
